@@ -93,6 +93,31 @@ def check(case, ctx):
         bad = [(d, g, e) for d, g, e in zip(dicts, got, expected) if g != e][0]
         raise Violation("behaviour-changed-in-child", f"protocol {proto}: options={bad[0]}: child {bad[1]} but fresh build {bad[2]}")
     labels.add("child-process")
+    # a long-lived graph that has been used and reconfigured: after the round trip it must behave like the original
+    # OBJECT (including what it has memoised), not like a fresh definition
+    W = pbuild(spec)
+    for o in dicts:
+        run(W.root.evaluate, copy.deepcopy(o))
+    for d in spec["defs"]:
+        if isinstance(d.get("dispatch"), str):
+            for o in dicts:
+                v = U.dotted_get(o, d["dispatch"])
+                if v is not U.ABSENT:
+                    try:
+                        W.ds[d["name"]].register(v, Value(("late", d["name"])))
+                    except TypeError:
+                        pass
+    before = outcomes(W.root, dicts) + [outcomes(W.ds[d["name"]], dicts) for d in spec["defs"]]
+    try:
+        w_root, w_ds = pickle.loads(pickle.dumps((W.root, W.ds), protocol=proto))
+    except Exception as e:
+        raise Violation("cannot-pickle", f"used and reconfigured graph, protocol {proto}: {type(e).__name__}: {e}")
+    after = outcomes(w_root, dicts) + [outcomes(w_ds[d["name"]], dicts) for d in spec["defs"]]
+    if after != before:
+        i = [k for k in range(len(before)) if before[k] != after[k]][0]
+        raise Violation("behaviour-changed-after-use", f"graph evaluated on {dicts}, then late registrations, then pickled (protocol {proto}): "
+                                                       f"{'root' if i == 0 else spec['defs'][i - 1]['name']} answers {after[i]} after the round trip but {before[i]} before it")
+    labels.add("warm-reconfigured-round-trip")
     # unpickled datasets remain usable for registration and evaluation
     root2, ds2 = pickle.loads(blobs[proto])
     nontrivial = False
